@@ -236,6 +236,19 @@ func checkZoom(prop string, ids []string, vox []ref.Vox, h, v int64) (viol []eng
 		viol = append(viol, engine.Violation{Property: prop, Sig: prop + ":ChangeExtendedSpatialIdsZoom:result-set-differs-from-dyadic-model" + cls,
 			Detail: map[string]any{"call": call, "missing": head(missing, 8), "extra": head(extra, 8), "got_n": len(got), "want_n": len(wantL)}})
 	}
+	// the same list with every entry repeated (reversed second copy): same set, still duplicate-free
+	if len(ids) <= 64 {
+		dbl := append([]string(nil), ids...)
+		for i := len(ids) - 1; i >= 0; i-- {
+			dbl = append(dbl, ids[i])
+		}
+		gotD, errD := integrate.ChangeExtendedSpatialIdsZoom(dbl, h, v)
+		mD, eD := diffSets(gotD, wantL)
+		if errD != nil || len(mD)+len(eD) > 0 || dupOf(gotD) != "" {
+			viol = append(viol, engine.Violation{Property: prop, Sig: prop + ":ChangeExtendedSpatialIdsZoom:repeated-entries-change-the-result" + classifyZoomDiff(vox, h, v),
+				Detail: map[string]any{"call": fmt.Sprintf("integrate.ChangeExtendedSpatialIdsZoom(%s, %d, %d)", goList(dbl), h, v), "missing": head(mD, 8), "extra": head(eD, 8), "dup": dupOf(gotD)}})
+		}
+	}
 	// single-zoom API on h == v inputs and targets
 	if h == v {
 		all := true
@@ -303,6 +316,19 @@ func checkMerge(prop string, ids []string, vox []ref.Vox, h, v int64) (viol []en
 	if len(missing)+len(extra) > 0 {
 		viol = append(viol, engine.Violation{Property: prop, Sig: prop + ":MergeExtendedSpatialIds:result-set-differs-from-dyadic-model" + cls,
 			Detail: map[string]any{"call": call, "missing": head(missing, 8), "extra": head(extra, 8), "got": head(sortedCopy(got), 12), "want": head(wantL, 12)}})
+	}
+	// the same list with every entry repeated (reversed second copy): same set, still duplicate-free
+	if len(ids) <= 96 {
+		dbl := append([]string(nil), ids...)
+		for i := len(ids) - 1; i >= 0; i-- {
+			dbl = append(dbl, ids[i])
+		}
+		gotD, errD := integrate.MergeExtendedSpatialIds(dbl, h, v)
+		mD, eD := diffSets(gotD, wantL)
+		if errD != nil || len(mD)+len(eD) > 0 || dupOf(gotD) != "" {
+			viol = append(viol, engine.Violation{Property: prop, Sig: prop + ":MergeExtendedSpatialIds:repeated-entries-change-the-result" + cls,
+				Detail: map[string]any{"call": fmt.Sprintf("integrate.MergeExtendedSpatialIds(%s, %d, %d)", goList(dbl), h, v), "missing": head(mD, 8), "extra": head(eD, 8), "dup": dupOf(gotD)}})
+		}
 	}
 	// region preservation, computed independently of ref.Merge by cell refinement
 	var gotVox []ref.Vox
